@@ -85,6 +85,23 @@ func runHistProp(o *Options, prop string, prof *Profile, quickN, thoroughN int, 
 				hs = append(hs, h)
 			}
 		}
+		// more include buffers than a context keeps at hand: an include inside a counting loop of
+		// 9 to 12 iterations, on a context that went through the same before a Reset / the pool
+		for k, sep := range []string{"reset", "release"} {
+			h := &history{Reg: map[string][]dyntpl.VerifNode{}, Flits: map[string]float64{}, Budget: 20}
+			d := &DataEnv{Statics: []StaticVar{{Name: "t0", Kind: "string", S: []byte("Ann")}}}
+			item := manualCase((id0+20+k)*10, `<c{%= i %}:{%= t0 %}>`, d, h)
+			ikey := item.vc.Meta["key"].(string)
+			h.Reg[ikey] = item.vc.Tree
+			h.RegKeys = append(h.RegKeys, ikey)
+			for j, lim := range []int{10, 3, 12, 9} {
+				host := manualCase((id0+20+k)*10+1+j, fmt.Sprintf(`[{%% for i := 0; i < %d; i++ %%}{%% include %s %%}{%% endfor %%}]`, lim, ikey), d, h)
+				host.vc.Budget = 20
+				h.Steps = append(h.Steps, &hStep{Kind: "render", IC: host, Key: host.vc.Meta["key"].(string)}, &hStep{Kind: sep})
+			}
+			h.run()
+			hs = append(hs, h)
+		}
 		// slot transitions: every ordered pair of variable kinds (13 x 13) in the same slots across a reset
 		id := n
 		for _, a := range slotKinds {
